@@ -246,6 +246,16 @@ theorem C10_naive_cutoff_runs {ev₁ : Ev St P I V E} {St₂ : Type} {ev₂ : Ev
       (initTask s) (initTask s) st₁ st₂ dl as h₁ h₂ rfl rfl rfl rfl
   exact ⟨g1, g2, g3, g4⟩
 
+/-- **C10_score.** The documented post-condition of `_test_`: the score is a fraction in [0, 1]
+    (denominator positive — no division by zero, also on a task without examples), and it is 1
+    whenever the test accepts — for both solvers, every evaluator and every evaluator state. -/
+theorem C10_score (k : Kind) (ev : Ev St P I V E) (exs : List (I × V)) (st : St) (p : P) (b : Bool) (sc : Score)
+    (h : (test k ev exs st p).2 = .ok (b, sc)) :
+    0 < sc.den ∧ sc.num ≤ sc.den ∧ (b = true → sc.num = sc.den) := by
+  cases k with
+  | naive => exact testNaive_score ev exs st p b sc h
+  | cutoff => exact testCutoff_score ev exs st p b sc h
+
 /-- **C10_evaluator_state.** A run leaves the evaluator in a faithful state: the next task on the
     same evaluator starts from a state to which all the theorems above apply again. -/
 theorem C10_evaluator_state {ev : Ev St P I V E} {spec : P → I → Outcome V E} {Inv : St → Prop}
@@ -361,6 +371,16 @@ example : (∀ q ∈ [0, 1], verdict .cutoff spec exs q = .ok false) ∧ verdict
 -- agreement needs its hypothesis)
 example : verdict .naive spec [(0, 7), (1, 2)] 5 = .error "TypeError" ∧
           verdict .cutoff spec [(0, 7), (1, 2)] 5 = .ok false := ⟨rfl, rfl⟩
+-- hypothesis of C10_naive_cutoff_runs / C10_yields_undisturbed (no escaping exception) on a non-trivial enumeration
+example : ∀ p ∈ [0, 1, 2, 3, 4], ∀ ex ∈ exs, raisedOf (spec p ex.1) = none := by decide
+-- hypothesis of C10_never_skips: the counter went past position 1 (program 2, a solution)
+example : [0].length < (run .naive ([0] ++ 2 :: [4]) [] [false, false]).solver.programs := by decide
+-- statistics accumulate over tasks: a second task on the same solver, accepted at rank 2, after 5 programs
+example : (solve (test .cutoff (pureEv spec) exs) (run .cutoff [0, 1, 2, 3, 4, 2] [] [false, true]).solver ()
+    [1, 4] [] [true]).solver.statsPrograms = 5 + 2 := by decide
+-- scores: program 0 passes one of two examples: naive 1/2; cut-off 1/2 as well (stopped at the second)
+example : (test .naive (pureEv spec) exs () 0).2 = .ok (false, ⟨1, 2⟩) := rfl
+example : (test .cutoff (pureEv spec) exs () 1).2 = .ok (false, ⟨0, 2⟩) := rfl
 -- a task without examples: every program is a solution, for both solvers (C10-F1 repaired)
 example : (solve (test .naive (pureEv spec) []) Solver.init () [0, 3] [] [false, false]).yielded = [0, 3] := by decide
 
